@@ -121,6 +121,10 @@ int SimulateAvr8::dump_ram(int start, int end)
 {
   int n, count;
 
+  // Only the simulated RAM can be dumped.
+  if (start < 0) { start = 0; }
+  if (end > ram_size) { end = ram_size; }
+
   count = 0;
   for (n = start; n < end; n++)
   {
